@@ -535,6 +535,14 @@ func judgeStress(c StressCase, o *vh.Obs) {
 	}
 	sort.Strings(ptrs)
 	for _, p := range ptrs {
+		// a member of an object the source does not have yet (totals.rounding)
+		if i := strings.LastIndex(p, "/"); i > 0 {
+			if _, ok := jsontree.Get(tree, p[:i]); !ok {
+				if t2, err := jsontree.Set(tree, p[:i], map[string]any{}); err == nil {
+					tree = t2
+				}
+			}
+		}
 		tree, err = jsontree.Set(tree, p, c.Sets[p])
 		if err != nil {
 			o.Discard()
@@ -1146,7 +1154,7 @@ func judgeDecorated(c DecoratedCase, o *vh.Obs) {
 
 func init() {
 	vh.Describe(
-		"(i) every example document of every schema, and legacy variants of two example invoices per regime rewritten into the older shapes the library migrates on load (tax identity zones in PT / CO / MX, PT legacy exempt rate keys, IT SDI extension keys, MX identities that became extensions, tags and old rounding names on the tax object, tags on combos, online payment name / addr); (ii) generated invoices / orders / deliveries (C01 variety); (iii) example documents with 1-3 string fields (codes, series, identities, addresses, notes, names) replaced by hostile strings (spaces, doubled separators, non-ASCII, leading invalid characters, country prefixes); (iii-b) every text field of every example written untidily but recognisably (padded with blanks, trailing blanks, lower case, upper case), exhaustively; (iv) random histories of up to 12 steps of calculate / serialise+parse / validate / digest / verify / extract / sign / re-sign / clone over examples; (v) every published regime / addon / catalogue file parsed by its $schema and serialised again; (vi) normaliser laws on hostile strings; (viii) a minimal invoice for every registered regime x every published addon (and none) x every rate key of every category (plus explicit 0% / 10% / no percentage) and x every general, regime and addon invoice tag with a customer of the same and of five other countries; (ix) generated documents (tax-heavy, fixed amounts at the currency's precision) with 0-3 published addons, 0-3 general / regime / addon tags, a supplier tax identity and a customer of no, the same or any other tax country; (x) every member the published schemas declare and an example does not carry, added once per published type and member with a small valid instance and with each free-text string within two member names inside it replaced by untidy text (spaces, doubled separators, non-ASCII, prefixes); (vii) the calculated bytes of every example and of 40 generated documents recomputed in fresh processes with other GOMAXPROCS. Oracle: B1 = marshal(calc(parse(src))), marshal(parse(B1)) == B1, marshal(calc(parse(B1))) == B1 byte for byte with the same digest (also a third time), read-only operations leave marshal(env) unchanged - on the decorated unsigned envelope and again after signing it and adding three stamps in unsorted order -, identical bytes across processes. Non-trivial: the case had something to normalise, round or reorder (hostile strings, rounding remainders, >= 2 history steps). `untidy_values`: every text leaf of every example padded with blanks, with doubled blanks, in the other letter case, emptied and blank, one at a time. `respelled_numbers`: every number written as text in every example (amounts, quantities, percentages, bases of supplied summaries, complement figures) with trailing zeros removed, two zeros added and every smaller number of decimals down to none, one at a time: whatever precision a number was written with, the serialised result is a fixpoint. `cross_document`: every example invoice is calculated, edited in memory (party aliases, addresses, every extension value in place) and calculated again, twice; every example sharing its regime or an addon must then still calculate to the bytes it gave before. `key_extensions`: every `key` member of every example that names addons, extended with one and with two of the cbc.Key constants declared in the source of those addons' packages (quick: the first 40 words). `empty_extensions`: every extension key the document's addons and regime publish, put with an empty value into every extension map (and onto parties, the first item, the tax block, the payment instructions and the first combo when they have none).",
+		"(i) every example document of every schema, and legacy variants of two example invoices per regime rewritten into the older shapes the library migrates on load (tax identity zones in PT / CO / MX, PT legacy exempt rate keys, IT SDI extension keys, MX identities that became extensions, tags and old rounding names on the tax object, tags on combos, online payment name / addr); (ii) generated invoices / orders / deliveries (C01 variety); (iii) example documents with 1-3 string fields (codes, series, identities, addresses, notes, names) replaced by hostile strings (spaces, doubled separators, non-ASCII, leading invalid characters, country prefixes); (iii-b) every text field of every example written untidily but recognisably (padded with blanks, trailing blanks, lower case, upper case), exhaustively; (iv) random histories of up to 12 steps of calculate / serialise+parse / validate / digest / verify / extract / sign / re-sign / clone over examples; (v) every published regime / addon / catalogue file parsed by its $schema and serialised again; (vi) normaliser laws on hostile strings; (viii) a minimal invoice for every registered regime x every published addon (and none) x every rate key of every category (plus explicit 0% / 10% / no percentage) and x every general, regime and addon invoice tag with a customer of the same and of five other countries; (ix) generated documents (tax-heavy, fixed amounts at the currency's precision) with 0-3 published addons, 0-3 general / regime / addon tags, a supplier tax identity and a customer of no, the same or any other tax country; (x) every member the published schemas declare and an example does not carry, added once per published type and member with a small valid instance and with each free-text string within two member names inside it replaced by untidy text (spaces, doubled separators, non-ASCII, prefixes); (vii) the calculated bytes of every example and of 40 generated documents recomputed in fresh processes with other GOMAXPROCS. Oracle: B1 = marshal(calc(parse(src))), marshal(parse(B1)) == B1, marshal(calc(parse(B1))) == B1 byte for byte with the same digest (also a third time), read-only operations leave marshal(env) unchanged - on the decorated unsigned envelope and again after signing it and adding three stamps in unsorted order -, identical bytes across processes. Non-trivial: the case had something to normalise, round or reorder (hostile strings, rounding remainders, >= 2 history steps). `untidy_values`: every text leaf of every example padded with blanks, with doubled blanks, in the other letter case, emptied and blank, one at a time. `respelled_numbers`: every number written as text in every example (amounts, quantities, percentages, bases of supplied summaries, complement figures) with trailing zeros removed, two zeros added and every smaller number of decimals down to none, one at a time: whatever precision a number was written with, the serialised result is a fixpoint. `cross_document`: every example invoice is calculated, edited in memory (party aliases, addresses, every extension value in place) and calculated again, twice; every example sharing its regime or an addon must then still calculate to the bytes it gave before. `key_extensions`: every `key` member of every example that names addons, extended with one and with two of the cbc.Key constants declared in the source of those addons' packages (quick: the first 40 words). `rounding_inputs`: every example invoice, order and delivery given a totals.rounding of its own, at the currency's precision and finer. `empty_extensions`: every extension key the document's addons and regime publish, put with an empty value into every extension map (and onto parties, the first item, the tax block, the payment instructions and the first combo when they have none).",
 		"identifiers and dates are pinned (explicit uuid / issue_date, fixed header uuid); signatures are random and excluded from byte comparisons",
 		"documents with a fixed amount finer than its presented precision are a recorded finding (excluded by signature, counted)",
 		"a panic on a hostile string is reported by C14, not here",
@@ -1163,6 +1171,7 @@ func init() {
 	vh.Enum("cross_document", enumCrossDoc, judgeCrossDoc)
 	vh.Enum("key_extensions", enumKeyExtensions, judgeStress)
 	vh.Enum("empty_extensions", enumEmptyExt, judgeStress)
+	vh.Enum("rounding_inputs", enumRoundingInputs, judgeStress)
 	vh.Enum("respelled_numbers", enumRespelled, judgeStress) // every number of every example written with other decimals (see enumRespelled)
 	vh.Rapid("histories", 1_500, 100_000, genHistory, judgeHistory)
 	vh.Rapid("normalisers", 60_000, 3_000_000, func(t *rapid.T) StringCase { return StringCase{Text: genHostile(t, "s")} }, judgeNormalisers)
